@@ -100,14 +100,11 @@ Lemma list_upd_comm {A} (l:list A) : forall i j x y, i <> j -> list_upd (list_up
 Proof. induction l; intros [|i] [|j] x y H; cbn; auto; try congruence. f_equal. apply IHl. congruence. Qed.
 
 Lemma app_cur T i R W r : tr_ok T i R W -> r_active r = Some i -> cur (app T r) = cur r.
-Proof.
-  intros (J & _) Ha. unfold cur. cbn [r_active app r_ctxs]. rewrite Ha.
-  destruct (t_ctx T) as [[j cj]|]; auto. apply list_upd_nth_other. auto.
-Qed.
+Proof. intros OK Ha. unfold cur. cbn [r_active app r_ctxs]. rewrite Ha. apply (tk_nth _ _ _ _ OK). Qed.
 Lemma app_upd_cur T i R W r c : tr_ok T i R W -> r_active r = Some i -> upd_cur (app T r) c = app T (upd_cur r c).
 Proof.
-  intros (J & _) Ha. unfold upd_cur. cbn [r_active app]. rewrite Ha. unfold app, set_ctxs. cbn.
-  destruct (t_ctx T) as [[j cj]|]; auto. rewrite (list_upd_comm _ j i) by auto. reflexivity.
+  intros OK Ha. unfold upd_cur. cbn [r_active app]. rewrite Ha. unfold app, set_ctxs. cbn.
+  rewrite (tk_upd _ _ _ _ OK). reflexivity.
 Qed.
 
 Definition map_he (f:rt -> rt) (x:res (bool * rt * context)) := map_err f x.
@@ -327,8 +324,7 @@ Qed.
 Lemma visit_ok_app T i R W b1 r : tr_ok T i R W -> i < length (r_ctxs r) -> visit_ok b1 R W (app T r) i = visit_ok b1 R W r i.
 Proof.
   intros OK Hi. unfold visit_ok.
-  assert (N : nth_error (r_ctxs (app T r)) i = nth_error (r_ctxs r) i).
-  { destruct OK as (J & _). cbn [r_ctxs app]. destruct (t_ctx T) as [[j cj]|]; auto. apply list_upd_nth_other; auto. }
+  assert (N : nth_error (r_ctxs (app T r)) i = nth_error (r_ctxs r) i) by (cbn [r_ctxs app]; apply (tk_nth _ _ _ _ OK)).
   rewrite N. destruct (nth_error (r_ctxs r) i) as [c00|] eqn:Hc; [|reflexivity]. cbv zeta.
   unfold handed. rewrite app_set_active, (app_upd_cur T i R W) by auto.
   set (r0 := upd_cur (set_active r (Some i)) (prepared c00)).
